@@ -137,7 +137,9 @@ def judgeTrans (a b c : String) (D : List Iface) (go : String) : Verdict :=
                 (if ab && bc then ["!nt"] else [])
     if go.toList.contains 'P' then .violation "go-panic-or-internal" "booleans" tags
     else if go == "110" then
-      .violation (if !ks then "trans-never-under-container" else "trans-failure")
+      -- the known finding is what the *model* exhibits outside the theorem's region; a failure the
+      -- interpreted rules do not reproduce, or one inside the region, is not it
+      .violation (if !ks && m == "110" && mSt == "110" then "trans-never-under-container" else "trans-failure")
         "A <: B and B <: C imply A <: C" tags
     else if go == m && go == mSt then .ok tags else .modelDiff (m ++ " st=" ++ mSt) tags
   | _, _, _ => .skip "bad-type"
